@@ -233,6 +233,56 @@ class mappingproxy:
     pass
 
 
+# plain classes that EXPOSE attributes only typing's generic aliases are supposed to carry; they are classes, nothing else
+class ArgsTypes:
+    __args__ = (int, str)
+
+
+class ArgsEmpty:
+    __args__ = ()
+
+
+class ArgsNames:                       # e.g. a CLI command listing its argument names
+    __args__ = ("name", "verbose")
+
+
+class ArgsText:
+    __args__ = "ab"
+
+
+class HasOrigin:
+    __origin__ = list
+
+
+class OriginAndArgs:
+    __origin__ = dict
+    __args__ = ("k", 3)
+
+
+class _AnswersEverything(type):
+    def __getattr__(cls, name):
+        if name == "__wrapped__":      # keep inspect.unwrap finite for the harness' own reifier
+            raise AttributeError(name)
+        return name
+
+
+class Chatty(metaclass=_AnswersEverything):
+    pass
+
+
+ATTR_CLASSES = [ArgsTypes, ArgsEmpty, ArgsNames, ArgsText, HasOrigin, OriginAndArgs, Chatty]
+
+
+# non-ASCII identifiers
+class Caf\u00e9:
+    def m\u00e9thode(self, x):
+        return x
+
+
+def na\u00efve(\u00e9, b=1):
+    return \u00e9
+
+
 class Outer:
     class NoneType:                    # control: the qualname "Outer.NoneType" is not a key of the table
         pass
@@ -324,6 +374,8 @@ FUNCS = {
     "K.dc_meth": (ORIG["K.dc_meth"], True, "wrapper object (decorator class)"),
     "K.lru_sm": (ORIG["K.lru_sm"], True, "wrapper object (lru_cache)"),
     "K.dc_sm": (ORIG["K.dc_sm"], True, "wrapper object (decorator class)"),
+    "na\u00efve": (na\u00efve, True, "non-ASCII name"),
+    "Caf\u00e9.m\u00e9thode": (Caf\u00e9.__dict__["m\u00e9thode"], True, "non-ASCII name"),
     "K.meth": (K.__dict__["meth"], True, "method"),
     "K.__call__": (K.__dict__["__call__"], True, "method"),
     "K.cm": (K.__dict__["cm"].__func__, True, "classmethod"),
@@ -353,6 +405,8 @@ FUNCS = {
 CLASSES = {
     "K": (K, True), "K.Inner": (K.Inner, True), "K.Inner.Deep": (K.Inner.Deep, True), "Sub": (Sub, True),
     "Plain": (Plain, True),
+    "ArgsTypes": (ArgsTypes, True), "ArgsEmpty": (ArgsEmpty, True), "ArgsNames": (ArgsNames, True), "ArgsText": (ArgsText, True),
+    "HasOrigin": (HasOrigin, True), "OriginAndArgs": (OriginAndArgs, True), "Chatty": (Chatty, True), "Caf\u00e9": (Caf\u00e9, True),
     "NoneType": (NoneType, True), "NotImplementedType": (NotImplementedType, True), "mappingproxy": (mappingproxy, True),
     "Outer.NoneType": (Outer.NoneType, True), "Outer.mappingproxy": (Outer.mappingproxy, True),
     "LocalCls": (LocalCls, False), "Rebound": (ReboundOrig, False), "Gone": (GoneOrig, False),
@@ -367,7 +421,7 @@ def build(workdir: str):
     os.makedirs(d, exist_ok=True)
     with open(os.path.join(d, "__init__.py"), "w") as f:
         f.write("")
-    with open(os.path.join(d, "mod.py"), "w") as f:
+    with open(os.path.join(d, "mod.py"), "w", encoding="utf-8") as f:
         f.write(SOURCE)
     if workdir not in sys.path:
         sys.path.insert(0, workdir)
